@@ -87,6 +87,15 @@ def check_requires(F, cg, req, fn=None, site=None, D=None):
                         incs.append(bi)
         if not incs:
             return False, "no increment of `%s` found" % req["local"]
+        # equivalent guard: the increment sits under `local < K` for a constant K within the stated bound
+        lt_edges = []
+        if req.get("or_lt_const") is not None:
+            for (cb, true_t, false_t, op, la, ca, lb, cbv) in D._cmp_edges():
+                if op == "Lt" and la is not None and fn.local_name(la) == req["local"] and cbv is not None and cbv <= req["or_lt_const"]:
+                    lt_edges.append((cb, true_t))
+                if op == "Gt" and lb is not None and fn.local_name(lb) == req["local"] and ca is not None and ca <= req["or_lt_const"]:
+                    lt_edges.append((cb, true_t))
+        arms = list(arms) + lt_edges
         for bi in incs:
             if not any(D._edge_dominates(src, tgt, bi) or tgt == bi for src, tgt in arms):
                 return False, "`%s` is incremented at %s outside the %s arm of %s" % (req["local"], fn.loc(fn.blocks[bi]["t"]), "/".join(req["variants"]), req["call"])
